@@ -94,6 +94,13 @@ func expandJobs(specs []JobSpec) ([]Job, error) {
 				lists[i] = []int64{n}
 				continue
 			}
+			var obj struct {
+				V []int64 `json:"v"`
+			}
+			if err := json.Unmarshal(raw, &obj); err == nil && obj.V != nil {
+				lists[i] = obj.V
+				continue
+			}
 			var rng []int64
 			if err := json.Unmarshal(raw, &rng); err != nil {
 				return nil, fmt.Errorf("bad arg in %s: %s", s.Harness, raw)
